@@ -6,7 +6,12 @@ use std::io;
 use std::io::{BufRead, Write};
 
 use std::cmp::Ordering;
+#[cfg(not(betaveros_noulith_verif))]
 use std::collections::{HashMap, HashSet};
+#[cfg(betaveros_noulith_verif)]
+use std::collections::HashSet;
+#[cfg(betaveros_noulith_verif)]
+use crate::verif_hooks::{HashMap, NewExt};
 use std::fmt;
 use std::fmt::Debug;
 use std::fmt::Display;
@@ -1067,6 +1072,17 @@ impl Eq for ObjKey {}
 
 impl Hash for ObjKey {
     fn hash<H: Hasher>(&self, state: &mut H) {
+        #[cfg(betaveros_noulith_verif)]
+        match crate::verif_hooks::key_hash_mode() {
+            1 => return,
+            2 => {
+                let mut h = crate::verif_hooks::TwoBitHasher(0);
+                total_hash_of_key(&self.0, &mut h);
+                state.write_u8((h.finish() & 3) as u8);
+                return;
+            }
+            _ => {}
+        }
         total_hash_of_key(&self.0, state)
     }
 }
